@@ -96,6 +96,34 @@ def execute(plan, ctx):
     model = ops.Model(dom, cfg["kind"])
     impl, kind = cfg["impl"], cfg["kind"]
     used = set()
+    ops.KEEP = kept = []
+    try:
+        _run(plan, ctx, cfg, dom, c, conn, model, impl, kind, used, kept)
+    finally:
+        ops.KEEP = None
+
+
+def _check_kept(kept, op, impl, kind):
+    """operands of earlier calls are what they were when they were made"""
+    for obj, m, lst, form in kept:
+        try:
+            now = ops.listing(obj, m)
+            ok = ops.same_value(now, lst)
+            if ok and form in ("BTree", "TreeSet"):
+                obj._check()
+        except Exception as e:
+            now, ok = repr(e), False
+        if not ok:
+            raise Violation(
+                {"oracle": "operand-changed", "impl": impl, "kind": kind,
+                 "form": form},
+                "after %r an operand (%s) of an EARLIER call lists %r; it "
+                "listed %r when it was handed over" % (op, form, now, lst))
+    if len(kept) > 6:
+        del kept[:len(kept) - 6]
+
+
+def _run(plan, ctx, cfg, dom, c, conn, model, impl, kind, used, kept):
     for op in plan["ops"]:
         name = op[0]
         if name == "commit":
@@ -120,6 +148,8 @@ def execute(plan, ctx):
                  "want": want[1] if want[0] == "exc" else "value"},
                 "%r -> %r, model says %r" % (op, got, want))
         check_listing(c, model, cfg, name, ctx)
+        if kept:
+            _check_kept(kept, op, impl, kind)
     w = None
     if kind in ("BTree", "TreeSet"):
         from .. import walker
